@@ -1,14 +1,14 @@
 #!/bin/bash
-# usage: mut.sh <PROP> <file-in-repo> <python-expr old> <new>   (applies a one-line textual mutation in /repo, runs the quick check, reverts)
-# or:    mut.sh <PROP> --patch <patchfile>
+# usage: mut.sh <PROP> <file-in-repo> <old> <new>     one textual mutation (anchor must occur exactly once)
+#        mut.sh <PROP> --patch <patchfile>
+# The mutation is applied to a scratch copy of /repo and the quick check is run against that copy
+# (tools/isolated.sh): /repo and /verif/evidence are not touched.
 set -u
 PROP=$1; shift
-cd /repo || exit 3
-if [ -n "$(git status --porcelain --untracked-files=no)" ]; then echo "repo dirty"; exit 3; fi
-if [ "$1" = "--patch" ]; then
-  git apply "$2" || { echo "patch failed"; exit 3; }
-else
-  python3 - "$1" "$2" "$3" <<'PY' || { git checkout -- .; exit 3; }
+if [ "$1" = "--patch" ]; then exec /verif/tools/isolated.sh "$2" $PROP; fi
+W=$(mktemp -d /tmp/mutwt.XXXXXX); rmdir $W
+git -C /repo worktree add -q --detach $W HEAD || exit 3
+python3 - "$W/$1" "$2" "$3" <<'PY' || { git -C /repo worktree remove --force $W; exit 3; }
 import sys
 p,old,new=sys.argv[1:4]
 s=open(p).read()
@@ -16,10 +16,5 @@ if s.count(old)!=1:
     print("mutation anchor count", s.count(old)); sys.exit(1)
 open(p,'w').write(s.replace(old,new))
 PY
-fi
-export GOFLAGS=-mod=mod GOPROXY=off GOSUMDB=off GOTOOLCHAIN=local
-if ! go build ./... ; then echo "MUTANT DOES NOT COMPILE"; git checkout -- .; exit 3; fi
-cd /verif && timeout 1200 ./verif check $PROP --tier ${TIER:-quick} > /tmp/mut-$PROP.log 2>&1; rc=$?
-cd /repo && git checkout -- .
-echo "mutant result for $PROP: rc=$rc ($( [ $rc = 1 ] && echo CAUGHT || echo MISSED ))"; grep -m3 "VIOLATION\|rapid\] failed\|inconclusive" /tmp/mut-$PROP.log
-exit 0
+P=$(mktemp /tmp/mut.XXXXXX.diff); git -C $W diff > $P; git -C /repo worktree remove --force $W
+/verif/tools/isolated.sh $P $PROP; rm -f $P
